@@ -1153,6 +1153,8 @@ class WcParse(Generic[AnyStr]):
                 if self._sequence_range_check(result, value):
                     removed = True
                 end_range = 0
+                # A hyphen directly after the range end is literal, also when the end was written as an escape (`a-\z-9`)
+                escape_hyphen = i.index
             else:
                 result.append(value)
 
